@@ -22,8 +22,19 @@ def gen_plan(rng, m, S, maxmsgs=4):
     return plans
 
 
+def _runs(l):
+    out, i = [], 0
+    while i < len(l):
+        j = i
+        while j < len(l) and l[j] == l[i]:
+            j += 1
+        out.append("%d*%d" % (l[i], j - i) if j - i > 3 else ",".join(str(l[i]) for _ in range(j - i)))
+        i = j
+    return ",".join(out)
+
+
 def plan_str(plans, late=None):
-    return ";".join("%s:%s%s" % (",".join(str(x) for x in l), "h" if h else "k", "L" if late and late[i] else "") for i, (l, h) in enumerate(plans))
+    return ";".join("%s:%s%s" % (_runs(l), "h" if h else "k", "L" if late and late[i] else "") for i, (l, h) in enumerate(plans))
 
 
 def rset_oracle(it):
@@ -171,8 +182,29 @@ def check_C06(chk):
         bursts.append({"id": next(nid), "plans": plans, "late": [False] * m, "mode": mode, "threads": 1 if mode == "after" else rng.randint(1, 3),
                        "eintr": 0, "burst": True})
 
+    # the public IpcReceiverSet (typed messages): a slice of the cases above, plus batches that carry many results of several
+    # members at once, the members becoming ready in the opposite order of their ids, plus heavy concurrent traffic
+    ipc_cases = [dict(c, id=next(nid), level="ipc", eintr=0) for c in cases[:24 if not thorough else 200]]
+    for k in range(60 if thorough else 10):
+        m = rng.randint(2, 6)
+        plans = [([40] * rng.randint(8, 40), rng.random() < 0.6) for _ in range(m)]
+        mode = ["after", "before"][k % 2]
+        ipc_cases.append({"id": next(nid), "plans": plans, "late": [False] * m, "mode": mode, "threads": 1 if mode == "after" else rng.randint(1, 3),
+                          "eintr": 0, "burst": True, "level": "ipc", "rev": k % 3 != 2})
+    races = []
+    for k in range(12 if thorough else 3):
+        m = rng.randint(2, 4)
+        races.append({"id": next(nid), "plans": [([40] * rng.randint(250, 400), True) for _ in range(m)], "late": [False] * m, "mode": "before", "threads": m,
+                      "eintr": 0, "burst": True, "level": ["ipc", "os"][k % 2]})
+    # paced senders: the selecting thread keeps finding a member's queue just drained while the next message is on its way
+    for k in range(4 if thorough else 2):
+        m = 3
+        races.append({"id": next(nid), "plans": [([40] * (30000 if thorough else 12000), True) for _ in range(m)], "late": [False] * m, "mode": "before", "threads": m,
+                      "eintr": 0, "burst": True, "level": ["ipc", "os"][k % 2], "pace": True})
+
     def run(chunk, binp=None, shim=True):
-        lines = ["id=%d plan=%s mode=%s threads=%d eintr=%d" % (c["id"], plan_str(c["plans"], c.get("late")), c["mode"], c["threads"], c["eintr"]) for c in chunk]
+        lines = ["id=%d plan=%s mode=%s threads=%d eintr=%d%s%s" % (c["id"], plan_str(c["plans"], c.get("late")), c["mode"], c["threads"], c["eintr"],
+                                                                 " level=ipc" if c.get("level") == "ipc" else "", (" rev=1" if c.get("rev") else "") + (" pace=1" if c.get("pace") else "")) for c in chunk]
         env = {} if (chunk and chunk[0].get("burst")) else {"VSHIM_SNDBUF": S}
         recs, trace, rc, err = C.run_harness(binp or bins["default"], "rset", lines, env_extra=env, shim=shim, timeout=900)
         by = {r["id"]: r for r in recs if r.get("kind") == "rset"}
@@ -180,17 +212,19 @@ def check_C06(chk):
         return [{"case": c, "rec": by.get(c["id"]), "stderr": err if c["id"] not in by else "", "trace": trace} for c in chunk
                 if c["id"] in by or not aborted]
     chunks = [cases[i::8] for i in range(8)] + [ch for ch in (bursts[i::4] for i in range(4)) if ch]
+    chunks += [[c for c in ipc_cases if not c.get("burst")], [c for c in ipc_cases if c.get("burst")], races]
     with concurrent.futures.ThreadPoolExecutor(max_workers=8) as ex:
         items = [it for r in ex.map(run, chunks) for it in r]
     # in-process transport: oracle only (one event per select by design)
     inp = [dict(c, id=next(nid)) for c in cases[:20]]
     for c in inp:
         c["eintr"] = 0
+    inp += [dict(c, id=next(nid)) for c in ipc_cases[:8] + [c for c in ipc_cases if c.get("burst")][:6] + races]
     iitems = run(inp, bins["inprocess"], False)
     fails, waits = [], 0
     for it in items + iitems:
         why = rset_oracle(it)
-        if why is None and it in items and it["trace"]:
+        if why is None and it in items and it["trace"] and not it["case"].get("level"):
             why, nw = discipline(it, it["trace"])
             waits += nw
         if why:
@@ -200,7 +234,7 @@ def check_C06(chk):
         chk.failing_input(why, {"members": len(c["plans"]), "plan": plan_str(c["plans"]), "mode": c["mode"], "threads": c["threads"], "eintr_every": c["eintr"],
                                 "observed_batches": (it["rec"] or {}).get("batches", [])[:6]},
                           key="plan=%s mode=%s threads=%d eintr=%d" % (plan_str(c["plans"])[:200], c["mode"], c["threads"], c["eintr"]))
-    seq_items = [it for it in items if it["case"]["mode"] == "after" and it["rec"] and not it["rec"]["hang"]]
+    seq_items = [it for it in items if it["case"]["mode"] == "after" and it["rec"] and not it["rec"]["hang"] and not it["case"].get("level")]
     todo = [(i, model_term(it)) for i, it in enumerate(seq_items)]
     header = "From Coq Require Import List Bool.\nFrom IPC Require Import RSet RSetCheck.\nImport ListNotations.\n"
     res, errors = C.coq_eval_sharded(header, todo, lambda p: "Eval vm_compute in (%d, %s)." % p, "c06", shard=20)
@@ -215,7 +249,8 @@ def check_C06(chk):
                    "senders dropped or kept, 1..8 sender threads, members added before, during and after the traffic and - phased - after earlier members' closures were reported, EINTR injected into every 3rd wait; per-member "
                    "event oracle (messages in order, intact, tagged with the member's id, exactly one closure at the end, distinct ids); the selecting thread's system "
                    "calls must follow the edge-trigger discipline (every batch entry drained to EWOULDBLOCK or closure, wait again after EINTR, capacity 10, EPOLLET); "
-                   "the sequential scenarios are replayed on the RSet LTS and the exact event order compared; in-process build: oracle only; "
+                   "the sequential scenarios are replayed on the RSet LTS and the exact event order compared; the same oracle on the public IpcReceiverSet (typed messages; batches carrying "
+                   "8..40 results of each of 2..6 members, members becoming ready in the opposite order of their ids; 250..400 messages per member racing with select); in-process build: oracle only; "
                    "non-trivial = more than 10 members or concurrent traffic")
     cov["input_distribution"] = {"modes": {m: sum(1 for it in items if it["case"]["mode"] == m) for m in ("after", "before", "during", "phased")},
                                  "members": {"<=10": sum(1 for it in items if len(it["case"]["plans"]) <= 10), ">10": sum(1 for it in items if len(it["case"]["plans"]) > 10)},
@@ -811,7 +846,10 @@ def check_C08(chk):
                 cases.append({"id": next(nid), "order": order, "client": client, "sizes": [rng.choice([200, 50000, 96000, 96000]) for _ in range(n)], "big": True})
     lines = ["id=%d order=%s client=%s sizes=%s" % (c["id"], c["order"], c["client"], ",".join(str(x) for x in c["sizes"])) for c in cases]
     lines.append("id=%d op=many n=%d" % (next(nid), 200))
-    recs, trace, rc, err = C.run_harness(bins["default"], "server", lines, env_extra={"TMPDIR": tmp, "VSHIM_SNDBUF": 4096}, timeout=900)
+    # a client that connects and goes away without sending anything: accept returns an error and nothing may stay behind
+    noshow = [{"id": next(nid), "order": o, "client": k} for o in ("accept_first", "connect_first") for k in ("thread", "fork")]
+    nlines = ["id=%d op=noshow order=%s client=%s" % (c["id"], c["order"], c["client"]) for c in noshow]
+    recs, trace, rc, err = C.run_harness(bins["default"], "server", lines + nlines, env_extra={"TMPDIR": tmp, "VSHIM_SNDBUF": 4096}, timeout=900)
     by = {r["id"]: r for r in recs if r.get("kind") == "server"}
     # the big-backlog cases once more with the system's own buffer sizes (single packets of up to 96000 bytes fill the client's socket)
     blines = [l for l, c in zip(lines, cases) if c.get("big")]
@@ -866,9 +904,23 @@ def check_C08(chk):
             fails.append(({"many": 200}, many, "a live server's socket path / temp dir is missing"))
         elif not many["gone"] or many["tmp_after"] != many["tmp_before"] or many["fds_after"] != many["fds_before"]:
             fails.append(({"many": 200}, many, "dropping unused servers leaves file-system entries or descriptors behind"))
+    nby = {r["id"]: r for r in recs if r.get("kind") == "noshow"}
+    for c in noshow:
+        r = nby.get(c["id"])
+        if r is None:
+            fails.append((dict(c, op="noshow"), None, "the scenario 'client connects and leaves without sending' did not complete: %s" % err[-200:]))
+        elif r["accept"] == "hang":
+            fails.append((dict(c, op="noshow"), r, "accept blocks for ever although the only client has gone away without sending"))
+        elif not r["gone"] or r["tmp_after"] != r["tmp_before"]:
+            fails.append((dict(c, op="noshow"), r, "socket file / temp dir left behind after accept returned (%s) for a client that never sent" % r["accept"]))
+        elif r["fds_after"] != r["fds_before"]:
+            fails.append((dict(c, op="noshow"), r, "descriptors left behind after accept returned (%s) for a client that never sent: %d -> %d" % (r["accept"], r["fds_before"], r["fds_after"])))
     # in-process transport: same scenarios with a thread client
-    ilines = [l for l, c in zip(lines, cases) if c["client"] == "thread"]
+    ilines = [l for l, c in zip(lines, cases) if c["client"] == "thread"] + [l for l, c in zip(nlines, noshow) if c["client"] == "thread"]
     irecs, _, _, ierr = C.run_harness(bins["inprocess"], "server", ilines, shim=False, timeout=300)
+    for r in irecs:
+        if r.get("kind") == "noshow" and r["accept"] == "hang":
+            fails.append(({"op": "noshow", "build": "inprocess", "order": r["order"]}, r, "in-process transport: accept blocks for ever although the only client has gone away without sending"))
     for r in irecs:
         if r.get("kind") == "server":
             c = next(x for x in cases if x["id"] == r["id"])
